@@ -271,6 +271,21 @@ theorem C13_three_sum_overflow_counterexample :
 
 set_option exponentiation.threshold 5000 in
 set_option maxRecDepth 100000 in
+/-- why `three_sum2` is not among the functions the property calls error-free: in binary64, `x = 1`, `y = 2^-60`,
+    `z = 2^53 + 2` satisfy the guard of `C13_three_sum2`, the model returns `(2^53 + 4, −1)` — `r0` correctly rounded (a tie
+    to even), `r1 = RN(−1 + 2^-60)` — and `r0 + r1 ≠ x + y + z`: the residual `−(1 − 2^-60)` needs 60 bits. The correspondence
+    stream `eft.three_sum2` compares the compiled header with exactly this model. -/
+theorem C13_three_sum2_not_error_free_counterexample :
+    let x := ofBits64 0x3ff0000000000000
+    let y := ofBits64 0x3c30000000000000
+    let z := ofBits64 0x4340000000000001
+    2 * (x.mag + y.mag + z.mag) ≤ maxMag binary64 ∧
+    (threeSum2 binary64 x y z) = (ofBits64 0x4340000000000002, ofBits64 0xbff0000000000000) ∧
+    (threeSum2 binary64 x y z).1.toInt + (threeSum2 binary64 x y z).2.toInt ≠ x.toInt + y.toInt + z.toInt := by
+  decide
+
+set_option exponentiation.threshold 5000 in
+set_option maxRecDepth 100000 in
 /-- the hypotheses of `C13_two_sum` are satisfiable on a non-trivial instance
     (binary64, a = 1 + 2^-52, b = −(1 − 2^-53) · 2^-30: inexact sum, operands of different binades). -/
 example : ∃ a b : F, a.Rep binary64 ∧ b.Rep binary64 ∧ a.mag + b.mag ≤ maxMag binary64 ∧
